@@ -43,7 +43,7 @@ def baseline_pass(copy):
     """Run the pinned suite in the copy; return (ok, summary). ok = every BASELINE stable_pass test passes."""
     junit = os.path.join(copy, "junit.xml")
     p = subprocess.run(
-        ["/venv/bin/python", "-m", "pytest", "-q", "-p", "no:cacheprovider", "--timeout=900", "-x", "-n", "8",
+        ["/venv/bin/python", "-m", "pytest", "-q", "-p", "no:cacheprovider", "--timeout=900",  
          "--continue-on-collection-errors", f"--junitxml={junit}", "-o", "addopts="],
         cwd=copy, capture_output=True, text=True, env={**os.environ, "PYTHONPATH": copy, "PYTHONDONTWRITEBYTECODE": "1"},
     )
